@@ -53,7 +53,7 @@ def main():
     a = ap.parse_args()
     global REPO
     if a.copy:
-        REPO = "/tmp/seedrepo"
+        REPO = os.environ.get("VERIF_SEEDREPO", "/tmp/seedrepo")
         sh(["rm", "-rf", REPO])
         sh(["git", "clone", "-q", "/repo", REPO])
         os.environ["VERIF_REPO"] = REPO
